@@ -84,6 +84,14 @@ class Subject:
         lo, hi = self.domain(cfg)
         return (None if lo is None else lo + self.margin, None if hi is None else hi - self.margin)
 
+    def moderate_domain(self, cfg):
+        """input range of 'moderate magnitude' for precision-sensitive oracles (float32 twin, finite-difference gradients):
+        beyond |T x| = 4 the sigmoid/logit pair is ill-conditioned (1/(1-sigmoid) > 55) and rounding noise dominates"""
+        if self.name in ("Sigmoid", "CompositeCDFTransform"):
+            t = float(cfg.get("temperature", 1))
+            return (-4.0 / t, 4.0 / t)
+        return self.cell_domain(cfg)
+
     def cell_codomain(self, cfg):
         lo, hi = self.codomain(cfg)
         return (None if lo is None else lo + self.out_margin, None if hi is None else hi - self.out_margin)
